@@ -20,7 +20,7 @@ type c13Inst struct {
 func (l *Lab) c13Start(idp *IdP, store string, sessKey, encKey string) (*c13Inst, error) {
 	b := MustBackend("")
 	cfg := &GWConfig{Tls: "disable", Auth: []string{"openid"}, IdP: idp, Hosts: []string{b.Addr()}, HostSelection: "roundrobin",
-		PAASigningKey: StrP(Key32a), SessionStore: store, SessionKey: StrP(sessKey), SessionEncKey: StrP(encKey)}
+		PAASigningKey: StrP(Key32a), SessionStore: store, SessionKey: StrP(sessKey), SessionEncKey: StrP(encKey), Race: true}
 	g, err := l.StartGateway(cfg)
 	if err != nil {
 		b.Close()
@@ -221,6 +221,8 @@ func c13Store(l *Lab, rep *Report, idp *IdP, store string) {
 		rep.Eval(HashStr(store, "restoration", len(sessions)))
 	}
 
+	// ---- concurrent sessions: visitors who never log in and users logging in at the same time
+	c13Concurrent(l, rep, a, idp, store)
 	// ---- cookie integrity
 	if len(sessions) > 0 {
 		good := sessions[0]
@@ -299,5 +301,62 @@ func c13Store(l *Lab, rep *Report, idp *IdP, store string) {
 		if fl := g.Faults(); len(fl) > 0 {
 			rep.Violate("C13/gateway-fault/"+store, "runtime fault in the gateway log: "+fl[0], g.FaultContext(3000))
 		}
+		g.Stop()
+		// the race detector as a second monitor of the session / identity code under concurrent requests
+		n, d := g.RaceReports()
+		rep.Count("race_reports", n)
+		for _, r := range d {
+			if strings.Contains(r.Text, "rdpgw/cmd/rdpgw/identity") || strings.Contains(r.Text, "rdpgw/cmd/rdpgw/web") {
+				rep.Violate("C13/data-race-in-session-code/"+store, "data race in the session / identity code under concurrent requests: "+r.Key, r.Text)
+			}
+		}
 	}
+}
+
+// c13Concurrent: many browsers at once; half only visit /connect (and must stay
+// unauthenticated), half log in (and must be restored as exactly their user).
+func c13Concurrent(l *Lab, rep *Report, a *c13Inst, idp *IdP, store string) {
+	workers := 64
+	iters := l.Pick(60, 400)
+	var wg sync.WaitGroup
+	for w := 0; w < workers; w++ {
+		wg.Add(1)
+		go func(w int) {
+			defer wg.Done()
+			for i := 0; i < iters; i++ {
+				br := NewBrowser(a.gw, "")
+				if w%2 == 0 {
+					// a visitor: two requests, never a callback
+					if _, _, err := br.BeginLogin(""); err != nil {
+						continue
+					}
+					ok, user, _, _ := c13Authenticated(br)
+					rep.Count("concurrent_visitors", 1)
+					if ok {
+						rep.Violate("C13/visitor-authenticated-without-callback/"+store, fmt.Sprintf("a session that never went through a callback yields a connection file for %q while other users log in concurrently", user), nil)
+					}
+				} else {
+					user := fmt.Sprintf("conc-%d-%d", w, i)
+					f, _, err := br.Login(user, "")
+					rep.Count("concurrent_logins", 1)
+					if err != nil {
+						rep.Violate("C13/valid-login-not-authenticated/"+store, fmt.Sprintf("concurrent login of %q: %v", user, err), nil)
+						continue
+					}
+					if f.Settings["username"] != user {
+						rep.Violate("C13/identity-not-restored/"+store, fmt.Sprintf("concurrent login of %q: the file names %q", user, f.Settings["username"]), nil)
+						continue
+					}
+					for k := 0; k < 2; k++ {
+						ok, u2, st, _ := c13Authenticated(br)
+						if !ok || u2 != user {
+							rep.Violate("C13/identity-not-restored/"+store, fmt.Sprintf("session of %q under concurrency: follow-up gives authenticated=%v user=%q status=%d", user, ok, u2, st), nil)
+						}
+					}
+				}
+			}
+		}(w)
+	}
+	wg.Wait()
+	rep.Eval(HashStr(store, "concurrent-phase"))
 }
